@@ -21,6 +21,9 @@ def views(m, queries, order=None, only=None):
     put('sssr', lambda: [list(r) for r in m.sssr])
     put('components', lambda: [sorted(c) for c in m.connected_components])
     put('linear_hash_set', lambda: sorted(m.linear_hash_set(min_radius=1, max_radius=4)))
+    put('linear_hash_set-longer-only', lambda: sorted(m.linear_hash_set(min_radius=3, max_radius=4)))
+    put('linear_hash_set-again', lambda: sorted(m.linear_hash_set(min_radius=1, max_radius=4)))
+    put('morgan_hash_set-wider', lambda: sorted(m.morgan_hash_set(min_radius=2, max_radius=3)))
     put('morgan_hash_set', lambda: sorted(m.morgan_hash_set(min_radius=1, max_radius=3)))
     put('linear_bits', lambda: sorted(m.linear_bit_set(min_radius=1, max_radius=4, length=1024)))
     put('morgan_bits', lambda: sorted(m.morgan_bit_set(min_radius=1, max_radius=3, length=1024)))
@@ -70,18 +73,31 @@ def main():
         mixed = m.copy()
         shuf = views(mixed, queries, len(smi) * 7 + 3)
         after = views(mixed, queries)
-        c = m.copy()
-        try:
-            c.canonicalize()
-            canon = str(c)
-        except Exception as e:
-            canon = 'raise:' + type(e).__name__
-        s = m.copy()
-        try:
-            s.standardize()
-            std = str(s)
-        except Exception as e:
-            std = 'raise:' + type(e).__name__
+        def normalised(call):
+            # the object a normalisation call leaves behind must describe itself like its copy and like itself after a flush
+            o = m.copy()
+            try:
+                getattr(o, call)()
+            except Exception as e:
+                return {'object': 'raise:' + type(e).__name__}
+            res = {}
+            for where, x in (('object', o), ('copy', o.copy())):
+                try:
+                    res[where] = [str(x), sorted(x.atoms_order.items()), list(x.smiles_atoms_order)]
+                except Exception as e:
+                    res[where] = 'raise:' + type(e).__name__
+            o.flush_cache()
+            try:
+                res['flushed'] = [str(o), sorted(o.atoms_order.items()), list(o.smiles_atoms_order)]
+            except Exception as e:
+                res['flushed'] = 'raise:' + type(e).__name__
+            return res
+        norm = {call: normalised(call) for call in ('canonicalize', 'standardize', 'standardize_charges', 'neutralize')}
+        canon = norm['canonicalize'].get('object')
+        std = norm['standardize'].get('object')
+        for call, res in norm.items():
+            for where, val in res.items():
+                print(json.dumps({'input': smi, 'view': 'after-' + call, 'proc': f'{tag}/{where}', 'val': val}))
         # every view on a copy of its own on which nothing else was evaluated before (nothing cached), and once more right after it
         alone, twice = {}, {}
         for name in first:
